@@ -2463,7 +2463,8 @@ func (w *World) canon() string {
 		fmt.Fprintf(&sb, "|ch%d:%v:%v:%v", c.piece, cl, c.abandoned, w.haves[c.piece] > c.havesAt)
 	}
 	for _, rd := range w.readers {
-		fmt.Fprintf(&sb, "|rd %d+%d pos=%d busy=%v closed=%v ctx=%v req=%v ri=%d", rd.off, rd.ln, rd.pos, rd.busy, rd.closed, rd.ctx.Err() != nil, rd.r.requested, rd.r.requestedIndex)
+		// (ee: an empty read would be excused by an eviction the reader has not yet answered with one)
+		fmt.Fprintf(&sb, "|rd %d+%d pos=%d busy=%v closed=%v ctx=%v req=%v ri=%d ee=%v", rd.off, rd.ln, rd.pos, rd.busy, rd.closed, rd.ctx.Err() != nil, rd.r.requested, rd.r.requestedIndex, w.evictions > rd.emptyAtEvictions)
 	}
 	return sb.String()
 }
